@@ -136,6 +136,13 @@ func c10Cases() []c10Case {
 		{"save-new", func(db *gorm.DB, p *Perm) *gorm.DB { p.ID = 0; return db.Save(p) }, nil},
 		{"save-existing", func(db *gorm.DB, p *Perm) *gorm.DB { p.ID = 5; return db.Save(p) }, nil},
 		{"save-select-star", func(db *gorm.DB, p *Perm) *gorm.DB { p.ID = 5; return db.Select("*").Save(p) }, nil},
+		{"save-composite-partial-key", func(db *gorm.DB, p *Perm) *gorm.DB {
+			// a partly keyed record must not become the condition of an UPDATE touching other rows
+			d := verifrt.Intn("doc", 0, 3)
+			res := db.Save(&Folder{Doc: d, Rev: 0, Name: "f"})
+			verifrt.Assert(hasPrefix(res.Statement.SQL.String(), "INSERT INTO `folders`"), "C10.save-partial-key-updates-rows")
+			return res
+		}, nil},
 		{"updates-struct", func(db *gorm.DB, p *Perm) *gorm.DB { return db.Model(&Perm{ID: 5}).Updates(*p) },
 			func(p *Perm) []string { return append(nz(p), "updatedat") }},
 		{"updates-struct-ptr-self", func(db *gorm.DB, p *Perm) *gorm.DB { p.ID = 5; return db.Updates(p) },
@@ -212,6 +219,9 @@ func H_C10_Columns(shape int) {
 	sql := stmt.SQL.String()
 	verifrt.Reach("built")
 	verifrt.Observe("sql", sql)
+	if c.name == "save-composite-partial-key" {
+		return // another model: only the INSERT-not-UPDATE assertion inside the case applies
+	}
 	ins, set := insertCols(sql), setCols(sql)
 	for _, col := range ins {
 		verifrt.Assert(c10Creatable[col], "C10.create-denied-column:"+col)
